@@ -4,8 +4,39 @@
    (Unserialize built from the graph operations of Model/Graph.v). *)
 From Coq Require Import Permutation.
 From Verif Require Import Model.Base Model.Node Model.Graph Model.Spdx Model.Cdx Gen.Tables
-  Proofs.GraphFacts Proofs.CdxFacts.
+  Proofs.GraphFacts Proofs.SetLaws Proofs.CdxFacts.
 Open Scope list_scope.
+
+(* ---- the round trip ---- *)
+(* The class: exactly one root; unique, non-empty, non-reserved identifiers; every stored edge with a
+   target is a containment edge between nodes; the containment relation is a tree under the root
+   (a depth function witnesses acyclicity, every node but the root is contained, and in one node
+   only).  Nothing is said about the order of the stored edges, how a node's children are spread
+   over edges, depth or fan-out: the statement holds for every such document. *)
+Theorem C02_containment_tree_roundtrip : forall d md nl root rank b,
+  d_metadata d = Some md -> d_node_list d = Some nl -> cdx_tree_class nl root rank -> cdx_ser d = Ok b ->
+  let nl' := cdx_unser_nl b in
+  (forall i, In i (ids nl') <-> In i (ids nl)) /\
+  (forall f t x, InE (nl_edges nl') f t x <-> InE (nl_edges nl) f t x) /\
+  nl_root_elements nl' = [root].
+Proof. exact cdx_tree_roundtrip. Qed.
+Print Assumptions C02_containment_tree_roundtrip.
+
+(* the serializer accepts every tree of the class *)
+Theorem C02_tree_is_serializable : forall d md nl root rank,
+  d_metadata d = Some md -> d_node_list d = Some nl -> cdx_tree_class nl root rank ->
+  (forall dt, In dt (md_documentTypes md) -> exists ph, phase_of dt = Ok ph) ->
+  exists b, cdx_ser d = Ok b.
+Proof. exact cdx_tree_serializable. Qed.
+Print Assumptions C02_tree_is_serializable.
+
+(* what is read back is again a tree of the class, so a second pass returns the same node set,
+   containment and root once more *)
+Theorem C02_second_pass : forall d md nl root rank b,
+  d_metadata d = Some md -> d_node_list d = Some nl -> cdx_tree_class nl root rank -> cdx_ser d = Ok b ->
+  cdx_tree_class (cdx_unser_nl b) root rank.
+Proof. exact cdx_tree_class_preserved. Qed.
+Print Assumptions C02_second_pass.
 
 (* ---- structure: what is written ---- *)
 (* every node other than the root is written as a component exactly once — whatever the order of
@@ -102,6 +133,25 @@ Definition tree2 (es : list edge) : document :=
   {| d_metadata := Some {| md_id := "urn:uuid:1"; md_version := "3"; md_name := ""; md_date := None; md_tools := []; md_authors := []; md_comment := ""; md_documentTypes := [] |};
      d_node_list := Some {| nl_nodes := [nd2 "r"; nd2 "a"; nd2 "b"; nd2 "c"]; nl_edges := es; nl_root_elements := ["r"] |} |}.
 Definition ce (f : string) (t : list string) : edge := {| e_type := Edge_Type_contains; e_from := f; e_to := t |}.
+Example C02_class_inhabited :
+  cdx_tree_class {| nl_nodes := [nd2 "r"; nd2 "a"; nd2 "b"; nd2 "c"]; nl_edges := [ce "b" ["c"]; ce "r" ["a"]; ce "a" ["b"]]; nl_root_elements := ["r"] |}
+                 "r" (fun i => if String.eqb i "r" then 0 else if String.eqb i "a" then 1 else if String.eqb i "b" then 2 else 3)%nat.
+Proof.
+  constructor; cbn [nl_root_elements nl_nodes nl_edges ids map n_id nd2].
+  - reflexivity.
+  - repeat constructor; cbn; intuition discriminate.
+  - left. reflexivity.
+  - intros i [<-|[<-|[<-|[<-|[]]]]]; split; try discriminate; reflexivity.
+  - intros e [<-|[<-|[<-|[]]]]; cbn; (split; [tauto|]); intros x [<-|[]]; (split; [tauto|reflexivity]).
+  - reflexivity.
+  - intros e x [<-|[<-|[<-|[]]]] [<-|[]]; cbn; auto.
+  - intros e1 e2 x [<-|[<-|[<-|[]]]] [<-|[<-|[<-|[]]]] [<-|[]] [E|[]]; try reflexivity; discriminate.
+  - intros i [<-|[<-|[<-|[<-|[]]]]] Hne; try contradiction.
+    + exists (ce "r" ["a"]). cbn. tauto.
+    + exists (ce "a" ["b"]). cbn. tauto.
+    + exists (ce "b" ["c"]). cbn. tauto.
+Qed.
+
 Example C02_example :
   let shape d := match cdx_ser d with Ok b => Some (flat_map pairs (b_components b), map c_ref (b_components b), b_version b) | _ => None end in
   shape (tree2 [ce "r" ["a"]; ce "a" ["b"]; ce "b" ["c"]]) = Some ([("a", "b"); ("b", "c")], ["a"], 3) /\
